@@ -20,7 +20,12 @@ pub type Case = Vec<Vec<u8>>;
 pub struct Rng(pub u64);
 impl Rng {
     pub fn new(seed: u64) -> Self {
-        Rng(seed.wrapping_mul(0x9E3779B97F4A7C15).wrapping_add(0x1234_5678_9abc_def1))
+        // mix the seed so that neighbouring seeds give unrelated streams (a plain multiple of the
+        // SplitMix64 increment would make seed s the stream of seed 0 shifted by s steps)
+        let mut z = seed.wrapping_add(0x1234_5678_9abc_def1).wrapping_mul(0xD6E8FEB86659FD93);
+        z = (z ^ (z >> 32)).wrapping_mul(0xD6E8FEB86659FD93);
+        z ^= z >> 29;
+        Rng(z.wrapping_mul(0x2545F4914F6CDD1D) ^ 0x9E3779B97F4A7C15)
     }
     pub fn next(&mut self) -> u64 {
         self.0 = self.0.wrapping_add(0x9E3779B97F4A7C15);
@@ -243,7 +248,7 @@ pub fn main_with(h: Harness) {
                     }
                 };
                 debug_assert!(!s.contains('\n'));
-                writeln!(out, "{}", s.replace('\n', "\\n")).unwrap();
+                writeln!(out, "{}", s.replace('\n', "\\n").replace('\r', "\\r")).unwrap();
             }
         }
         _ => {
